@@ -59,6 +59,11 @@ def render_ff(rng, steps, case_mode):
 def ff_log(rng, steps, feats):
     hdr = [b for b in HEADER_BLOCKS if rng.random() < 0.7]
     rng.shuffle(hdr)
+    wrapped = rng.random() < 0.25
+    if wrapped:
+        # lines of a wrapper script around the planner's own output; they happen to look like "<digit>: words"
+        hdr.insert(0, rng.choice(["attempt 1: running metric-ff\n", "run 3: planner started\n", "[worker 2: solving pfile7]\n"]))
+        feats.add("wrapper-lines-around-the-planner-output")
     out = "".join(hdr) + "\n" + FOUND
     if rng.random() < 0.3:
         out += "\n"
@@ -79,6 +84,9 @@ def ff_log(rng, steps, feats):
         out += "\n"
     trl = [b for b in TRAILER_BLOCKS if rng.random() < 0.7]
     out += "".join(trl)
+    if wrapped and trl:
+        # only after the planner's own trailer: directly after the last step such a line could not be told from a step
+        out += rng.choice(["exit status 0: success\n", "attempt 1: done\n"])
     if rng.random() < 0.2:
         out = out.rstrip("\n")
         feats.add("no-final-newline")
